@@ -1,6 +1,12 @@
 from vyper.utils import OrderedSet
 from vyper.venom.analysis import CFGAnalysis, DFGAnalysis, LivenessAnalysis
-from vyper.venom.basicblock import COMPARATOR_INSTRUCTIONS, IRBasicBlock, IRInstruction, IRLiteral
+from vyper.venom.basicblock import (
+    COMPARATOR_INSTRUCTIONS,
+    IRBasicBlock,
+    IRInstruction,
+    IRLiteral,
+    IRVariable,
+)
 from vyper.venom.passes.base_pass import InstUpdater, IRPass
 
 
@@ -45,6 +51,10 @@ class BranchOptimizationPass(IRPass):
             cost_a, cost_b = len(fst_liveness), len(snd_liveness)
 
             cond = term_inst.operands[0]
+            if not isinstance(cond, IRVariable):
+                # literal condition (e.g. when sccp is disabled): there is
+                # no producing instruction to base the heuristic on
+                continue
             prev_inst = self.dfg.get_producing_instruction(cond)
             assert prev_inst is not None
 
